@@ -29,6 +29,6 @@ s = open(p).read()
 i = s.index('| seed | change (from meta.json) |')
 j = s.index('\n\n', i)
 s = s[:i] + table.rstrip('\n') + s[j:]
-s = re.sub(r'\(last full run: all \d+ live seeds of the \w+ rounds caught', '(last full run: all %d live seeds of the six rounds caught' % sum(1 for r_ in rows if 'superseded' not in r_), s)
+s = re.sub(r'\(last full run: all \d+ live seeds of the \w+ rounds caught', '(last full run: all %d live seeds of the seven rounds caught' % sum(1 for r_ in rows if 'superseded' not in r_), s)
 open(p, 'w').write(s)
 print(len(rows), 'rows')
